@@ -229,6 +229,8 @@ async fn run_call(mut kit: Kit, call: Call, ab_id: Option<i32>) -> (Kit, Ret) {
                 Err(e) => err_ret(&e),
             }
         }
+        Call::Next if kit.stream.is_none() => Ret::Err("NoStream".into(), "no stream (start failed)".into()),
+        Call::Finish if kit.stream.is_none() => Ret::Err("NoStream".into(), "no stream (start failed)".into()),
         Call::Next => {
             let s = kit.stream.as_mut().expect("stream");
             match s.next().await {
@@ -680,8 +682,33 @@ impl World {
             };
         }
         self.clients[i].cur = Some((call.clone(), self.now));
-        self.clients[i].task = Some(Task::new(run_call(kit, call, ab_id)));
+        let before = self.probe.as_ref().map(|p| p.verif_msgmap());
+        let allocates = matches!(call, Call::Single { .. } | Call::Search { .. } | Call::Abandon(_) | Call::Unbind)
+            || matches!(&call, Call::Start { own_paging, chain, .. } if !(*own_paging && matches!(chain, Chain::Paged(_) | Chain::EntriesPaged(_))));
+        self.clients[i].task = Some(Task::new(run_call(kit, call.clone(), ab_id)));
         self.poll_client(i);
+        if self.scn.oracles.ids && allocates {
+            if let (Some((last, inuse)), Some(p)) = (before, self.probe.as_ref()) {
+                let (last2, inuse2) = p.verif_msgmap();
+                // reference: cyclic successor in 1..=2^31-1 skipping IDs in use
+                let mut want = last as i64;
+                loop {
+                    want = if want >= i32::MAX as i64 { 1 } else { want + 1 };
+                    if !inuse.contains(&(want as i32)) {
+                        break;
+                    }
+                }
+                let mut exp: Vec<i32> = inuse.clone();
+                exp.push(want as i32);
+                exp.sort_unstable();
+                if last2 as i64 != want || inuse2 != exp {
+                    self.v(
+                        "ids:allocation",
+                        format!("allocation from (last={}, in use {:?}) gave (last={}, in use {:?}); reference: ID {}", last, inuse, last2, inuse2, want),
+                    );
+                }
+            }
+        }
     }
 
     fn poll_client(&mut self, i: usize) {
@@ -1137,6 +1164,9 @@ impl World {
                         } else if k != "PANIC" && !faulted && !self.abandoned_marker(marker) {
                             self.v(&format!("call:unexpected-error:{}", k), format!("client {} {} failed without any fault: {}", i, obs.call, m));
                         }
+                        if k != "PANIC" && k != "Timeout" && o.term && !self.abandoned_marker(marker) && self.response_routed_before(marker, obs.t_end, false) {
+                            self.v("term:delivered-response-lost", format!("client {} {}: the response had been delivered and routed, yet the call failed with {}", i, obs.call, m));
+                        }
                     }
                     other => self.v("call:wrong-shape", format!("client {} {} returned {:?}", i, obs.call, other)),
                 }
@@ -1292,6 +1322,9 @@ impl World {
     }
 
     fn judge_next(&mut self, i: usize, obs: &Obs, faulted: bool) {
+        if matches!(&obs.ret, Ret::Err(k, _) if k == "NoStream") {
+            return;
+        }
         let script = self.stream_script(i);
         let sm = self.clients[i].sm.clone();
         let plan = self.plan(&sm.marker);
@@ -1377,6 +1410,9 @@ impl World {
     }
 
     fn judge_finish(&mut self, i: usize, obs: &Obs, faulted: bool) {
+        if matches!(&obs.ret, Ret::Err(k, _) if k == "NoStream") {
+            return;
+        }
         let sm = self.clients[i].sm.clone();
         let plan = self.plan(&sm.marker);
         let _ = faulted;
@@ -1454,12 +1490,14 @@ impl World {
         if !self.server.reqs.iter().any(|r| r.marker == marker) {
             self.timed_out_unsent.insert(marker.to_string());
         }
-        let start = obs.t_start;
+        let start = obs.t_start.max(self.clients[i].last_poll);
         let deadline_min = start + t;
         if obs.t_end < deadline_min {
             self.v("timing:early", format!("client {} {} timed out at {} before its deadline {}", i, obs.call, obs.t_end, deadline_min));
         }
-        let _ = marker;
+        if matches!(self.scn.clients[i].script.get(0), Some(_)) && obs.call.starts_with("Single") && self.response_routed_before(marker, obs.t_end, false) {
+            self.v("timing:timeout-despite-response", format!("client {} {}: returned Timeout although its response had been routed earlier", i, obs.call));
+        }
     }
 
     fn check_timing_pending(&mut self) {
@@ -1468,10 +1506,8 @@ impl World {
             if let (Some(task), Some((call, t0))) = (&c.task, &c.cur) {
                 if let Some(t) = self.cur_timeout(c) {
                     // search()/paged calls re-arm internally: the reference is the last poll
-                    let base = match call {
-                        Call::Search { .. } => c.last_poll.max(*t0),
-                        _ => *t0,
-                    };
+                    let _ = call;
+                    let base = c.last_poll.max(*t0);
                     if self.now >= base + t && !task.woken() {
                         found.push((i, format!("{:?}", call), base + t));
                     }
@@ -1501,18 +1537,28 @@ impl World {
             let (_, ids) = p.verif_msgmap();
             if !ids.is_empty() {
                 let culprit = self.classify_leak(&ids);
-                self.v(&format!("leak:ids:{}", culprit), format!("no operation outstanding but message IDs {:?} are still reserved ({})", ids, culprit));
+                self.v(&format!("leak:{}:ids:{}", self.leak_cause(&ids), culprit), format!("no operation outstanding but message IDs {:?} are still reserved ({})", ids, culprit));
             }
         }
         if let Some((r, s)) = self.gauges.clone() {
             if !r.is_empty() {
                 let c = self.classify_leak(&r);
-                self.v(&format!("leak:resultmap:{}", c), format!("no operation outstanding but the result map still holds {:?} ({})", r, c));
+                self.v(&format!("leak:{}:resultmap:{}", self.leak_cause(&r), c), format!("no operation outstanding but the result map still holds {:?} ({})", r, c));
             }
             if !s.is_empty() {
                 let c = self.classify_leak(&s);
-                self.v(&format!("leak:searchmap:{}", c), format!("no operation outstanding but the search map still holds {:?} ({})", s, c));
+                self.v(&format!("leak:{}:searchmap:{}", self.leak_cause(&s), c), format!("no operation outstanding but the search map still holds {:?} ({})", s, c));
             }
+        }
+    }
+
+    fn leak_cause(&self, ids: &[i32]) -> &'static str {
+        let all_unsent = !ids.is_empty()
+            && ids.iter().all(|id| self.server.reqs.iter().any(|r| r.id == *id as i64 && self.timed_out_unsent.contains(&r.marker)));
+        if all_unsent {
+            "scrub-overtook-request"
+        } else {
+            "plain"
         }
     }
 
@@ -1525,9 +1571,7 @@ impl World {
                 if r.id == *id as i64 {
                     k = match &r.kind {
                         RK::Single(_) => {
-                            if self.timed_out_unsent.contains(&r.marker) {
-                                "single-timed-out-before-request-was-written".into()
-                            } else if r.abandoned {
+                            if r.abandoned {
                                 "single-abandoned".into()
                             } else if r.done {
                                 "single-answered".into()
@@ -1542,8 +1586,7 @@ impl World {
                                 .find(|c| c.sm.marker == r.marker)
                                 .map(|c| chain_name(&c.sm.chain))
                                 .unwrap_or_else(|| "search()".to_string());
-                            let unsent = if self.timed_out_unsent.contains(&r.marker) { "-timed-out-before-request-was-written" } else { "" };
-                            format!("search-{}-{}{}{}", chain, if r.done { "done" } else { "open" }, if r.abandoned { "-abandoned" } else { "" }, unsent)
+                            format!("search-{}-{}{}", chain, if r.done { "done" } else { "open" }, if r.abandoned { "-abandoned" } else { "" })
                         }
                         RK::Abandon(_) => "abandon-op".into(),
                         RK::Unbind => "unbind-op".into(),
